@@ -72,6 +72,14 @@ if tag >= "c":
                "exception / after a restart); (c) a fault at a particular point of a multi-step operation; (d) behaviour that "
                "depends on an argument's memory layout, dtype, device-independent aliasing (same tensor passed twice) or on "
                "whether an optional argument is omitted vs passed with its default value.\n")
+if tag >= "f":
+    flavour += ("Also welcome this round: (e) an 'optimisation' that takes a different code path only above a SIZE "
+                "threshold or only for particular dtypes (precision silently reduced, last block dropped); (f) a function "
+                "that now MUTATES an object owned by the caller (argument tensor/dict/list edited in place, a public "
+                "attribute frozen at construction and no longer re-read); (g) an ERROR PATH changed (an input that used to "
+                "raise is now silently accepted with a wrong result, or the reverse for a legal boundary input); (h) "
+                "INCONSISTENT or degenerate-but-legal inputs (empty batch elements, ids present in only part of a corpus, "
+                "duplicate entries, zero-length sequences mixed with long ones).\n")
 txt = txt.replace("@AVOID@", avoid + flavour)
 (d / "PROMPT.txt").write_text(txt.replace("{N}", n))
 print(d / "PROMPT.txt")
